@@ -271,7 +271,11 @@ func (p *Provider) loadRuleSet(fileName string) (*config2.RuleSet, error) {
 			CausedBy(err)
 	}
 
-	stat, _ := os.Stat(fileName)
+	stat, err := os.Stat(fileName)
+	if err != nil {
+		return nil, errorchain.NewWithMessagef(heimdall.ErrInternal,
+			"failed to get information about %s", fileName).CausedBy(err)
+	}
 
 	ruleSet.Hash = md.Sum(nil)
 	ruleSet.Source = "file_system:" + fileName
